@@ -343,6 +343,21 @@ def _run_advert(case, obs):
                 continue
             vals = [("evse.max_rate", evse.max_rate), ("evse.min_rate", evse.min_rate)]
             vals += [("evse.allowable_pilot_signals", v) for v in evse.allowable_pilot_signals]
+            # truthful: the station's own limits are those of the set it was built with (library classes; a user subclass that
+            # overrides a hook reports what it likes): largest allowable value, smallest non-zero allowable value
+            de_ = next((s_["evse"] for s_ in stations if s_["id"] == sid), None)
+            if de_ is not None and not de_.get("user") and de_["t"] in ("EVSE", "FR"):
+                if de_["t"] == "FR":
+                    pos_ = [float(r_) for r_ in de_["rates"] if float(r_) > 0]
+                    t_max, t_min = max([float(r_) for r_ in de_["rates"]] + [0.0]), (min(pos_) if pos_ else 0.0)
+                else:
+                    t_max, t_min = float(de_["max"]), float(de_["min"])
+                obs.ev("station_limits_compared_with_the_construction_values")
+                # ("minimum": the smallest non-zero level - the library's reading - or 0 where 0 itself is allowable)
+                min_ok = {t_min} | ({0.0} if (de_["t"] == "FR" and any(float(r_) == 0 for r_ in de_["rates"])) else set())
+                if float(evse.max_rate) != t_max or float(evse.min_rate) not in min_ok:
+                    obs.violate("station_limit_not_truthful", f"station {sid} built with {de_}: reports max_rate {evse.max_rate!r}, min_rate {evse.min_rate!r}; "
+                                f"largest / smallest non-zero allowable value {t_max!r} / {t_min!r}", evse=de_)
             vals += [(f"{tag}.max_pilot_signals", nw.max_pilot_signals[i]), (f"{tag}.min_pilot_signals", nw.min_pilot_signals[i])]
             vals += [(f"{tag}.allowable_rates", v) for v in nw.allowable_rates[i]]
             cont, allow = iface.allowable_pilot_signals(sid)
